@@ -143,16 +143,9 @@ Proof.
   simpl. rewrite Hcd, IH. reflexivity.
 Qed.
 
-(** Hence the value the lexer computes for a literal does not depend on the script
-    (nor on mixing scripts inside one literal). *)
-Theorem literal_value_script_invariance : forall ip ip' fp fp',
-  Forall2 same_digit ip ip' -> Forall2 same_digit fp fp' ->
-  literal_value (translit_str ip) (translit_str fp) =
-  literal_value (translit_str ip') (translit_str fp').
-Proof.
-  intros ip ip' fp fp' Hi Hf.
-  rewrite (script_invariance _ _ Hi), (script_invariance _ _ Hf). reflexivity.
-Qed.
+(** (The consequence for the lexer's literal value, [literal_value_script_invariance],
+    is in Proofs/NumFacts.v: [literal_value] is defined through Flocq's division, whose
+    correctness proof inside the definition brings the axioms of the real numbers.) *)
 
 (** A transliterated digit string consists of ASCII digits. *)
 Lemma translit_str_ascii : forall ds,
@@ -185,14 +178,14 @@ Open Scope Z_scope.
 Lemma digits_val_acc_snoc : forall ds acc d,
   digits_val_acc acc (ds ++ [d]) = 10 * digits_val_acc acc ds + Z.of_N (d - 48)%N.
 Proof.
-  induction ds as [|c r IH]; intros acc d; simpl.
+  induction ds as [|c r IH]; intros acc d; cbn [digits_val_acc app].
   - lia.
   - apply IH.
 Qed.
 
 Lemma digits_val_acc_nonneg : forall ds acc, 0 <= acc -> 0 <= digits_val_acc acc ds.
 Proof.
-  induction ds as [|c r IH]; intros acc H; simpl.
+  induction ds as [|c r IH]; intros acc H; cbn [digits_val_acc].
   - exact H.
   - apply IH. lia.
 Qed.
@@ -200,7 +193,7 @@ Qed.
 Lemma digits_val_acc_app : forall ds es acc,
   digits_val_acc acc (ds ++ es) = digits_val_acc (digits_val_acc acc ds) es.
 Proof.
-  induction ds as [|c r IH]; intros es acc; simpl; [reflexivity|apply IH].
+  induction ds as [|c r IH]; intros es acc; cbn [digits_val_acc app]; [reflexivity|apply IH].
 Qed.
 
 Lemma digits_val_acc_shift : forall es acc,
@@ -442,7 +435,6 @@ End Int64.
 
 Print Assumptions translit_spec.
 Print Assumptions script_invariance.
-Print Assumptions literal_value_script_invariance.
 Print Assumptions digits_val_spec.
 Print Assumptions wrap64_mod.
 Print Assumptions i64_and_range.
